@@ -20,6 +20,7 @@ def interference(I, node, fr):
     if fr.func is None or fr.func.qualname != FLUSH_Q:
         return
     c = I.c
+    I.pre_interference_snap = c.heap.snapshot()  # what the release itself did before it suspended
     buf = fr.locals["message_buffer"]
     sm = I.read_field(buf, "set_messages")
     dom0, map0 = I.d_dom(sm), I.d_map(sm)
@@ -54,7 +55,13 @@ def loop_contract():
         step=[P("C09/no-unwritten-entry-removed",
                 "forall(lambda q: implies(at_interference(q in SM) and not (q in SM), "
                 "wcnt(at_interference(SM[q])) == at_interference(wcnt(SM[q])) + 1), 'key3')"),
-              CANARY("C09/canary-nothing-ever-removed", "forall(lambda q: implies(at_interference(q in SM), q in SM), 'key3')")],
+              # ... and the same for what the release removes before it suspends in the write: between two suspension points the
+              # buffer may hold a value a concurrent send parked during the previous write; taking that one out and writing the
+              # snapshot's older value loses the newer one
+              P("C09/no-unwritten-entry-removed-before-the-write",
+                "forall(lambda q: implies(old(q in SM) and not before_interference(q in SM), "
+                "wcnt(old(SM[q])) >= old(wcnt(SM[q])) + 1), 'key3')"),
+              CANARY("C09/canary-nothing-ever-removed", "forall(lambda q: implies(old(q in SM), q in SM), 'key3')")],
         modifies=["message_buffer.set_messages[...]"] + GHOST_LOG + ["ghost.wcnt"], calls="send")
 
 
